@@ -218,6 +218,50 @@ def enc_x(v):
     return enc_rat(v)
 
 
+def SX(x, dt="float64", **kw):
+    """array request with values sent as strings (json cannot carry inf / nan)"""
+    x = np.asarray(x)
+    d = {"dtype": dt, "shape": list(x.shape), "data": [repr(float(v)) for v in x.ravel()], "via": "U32"}
+    d.update(kw)
+    return d
+
+
+def tmi_range_source():
+    """the three assignments `range_min = …`, `range_max = …`, `scaling = …` of
+    `_test_mutual_information` as they stand in the current timeseries/_ext/numerics.pyx, compiled
+    as Python expressions (they are Python-level NumPy expressions inside the `cdef` block), or None
+    when they cannot be read"""
+    import re
+    try:
+        text = open(os.path.join(common.REPO, "src", "pyunicorn", "timeseries", "_ext",
+                                 "numerics.pyx")).read()
+        m = re.search(r"^def _test_mutual_information\((.*?)\):\n(.*?)(?=^def |^cdef |\Z)", text,
+                      re.S | re.M)
+        body = re.sub(r"#[^\n]*", "", m.group(2))
+        out = {}
+        for name in ("range_min", "range_max", "scaling"):
+            mm = re.search(rf"DFIELD_t {name} = ((?:[^\n]*\\\n)*[^\n]*)", body)
+            out[name] = compile(mm.group(1).replace("\\\n", " ").strip(), f"<{name}>", "eval")
+        return out
+    except Exception:  # noqa
+        return None
+
+
+def tmi_range_eval(code, d1, d2):
+    """what those expressions give for two float64 arrays: range_min, range_max as C doubles
+    (`DFIELD_t`), the division with Cython's ZeroDivisionError (cdivision is off)"""
+    with np.errstate(all="ignore"):
+        env = {"np": np, "original_data": np.ascontiguousarray(d1, dtype=np.float64),
+               "surrogates": np.ascontiguousarray(d2, dtype=np.float64)}
+        rmin = float(eval(code["range_min"], dict(env)))
+        rmax = float(eval(code["range_max"], dict(env)))
+        try:
+            sc = float(eval(code["scaling"], {"range_min": rmin, "range_max": rmax, "np": np}))
+        except ZeroDivisionError:
+            sc = None
+    return rmin, rmax, sc
+
+
 def enc_xdata(M):
     M = np.asarray(M)
     if M.size == 0:
@@ -288,7 +332,14 @@ def run(ctx):
                 "kernels without data-dependent subscripts x buffer extents exactly as needed / larger / one short "
                 "on one axis / random x integer parameters 0..4: IndexError | normal return vs the prediction from "
                 "the generated site lists; every kernel call made under the public API is recorded with its "
-                "shapes and tested against the contract the in-bounds theorems assume; oracle "
+                "shapes and tested against the contract the in-bounds theorems assume; T2 also (round 5): "
+                "Surrogates.test_mutual_information (directly and through an instance) on IEEE data - +-inf / "
+                "NaN in either or both arrays, whole rows / arrays infinite, constant finite part - in both "
+                "float widths and layouts: verdict vs the wrapper model over IEEE values whose shape test, size "
+                "sources, range terms and scaling expression are the generated tables; the source's own "
+                "range_min / range_max / scaling expressions evaluated by NumPy vs the model's NaN-propagating "
+                "folds, exactly; every `call tmi` / `call pearson` request is answered by the hard-coded and by "
+                "the generated-table model, which must agree; oracle "
                 "stream: other dtypes, random / +-inf / NaN / overflowing / subnormal-range float data in "
                 "both widths, n_bins up to 4096, RecurrencePlot / VisibilityGraph entry points, histories on "
                 "one Surrogates / RecurrencePlot object with library-held arrays.  distinct = distinct "
@@ -537,6 +588,109 @@ def run(ctx):
         d1, d2 = dyadic(nprng, s1), dyadic(nprng, s2)
         add_api("tmi", f"call tmi {s1[0]} {s1[1]} {s2[0]} {s2[1]} 4 {enc_data(d1)} {enc_data(d2)}",
                 [A(d1, "float64"), A(d2, "float64")], [4], "surrogates-shape-differs", (s1, s2))
+    # `Surrogates.test_mutual_information` on IEEE data (round 5): +-inf / NaN in either or both
+    # arrays, whole rows / whole arrays infinite, a constant finite part, both float widths and
+    # layouts, directly and through an instance; verdict against `tmiCallX` (range terms from the
+    # generated tables), and the range itself — the source's own three expressions evaluated by
+    # NumPy — against the model's NaN-propagating folds (`range tmix`), exactly
+    rsrc = tmi_range_source()
+    rlean, rimpl = [], []
+    xkinds = ["inf-orig", "ninf-orig", "inf-surr", "ninf-surr", "both-signs", "all-inf", "all-ninf",
+              "inf+nan", "row-inf", "const+inf", "const+ninf", "finite", "nan-only", "opposite-arrays", "const"]
+    xshapes = [(1, 1), (1, 2), (2, 1), (2, 3), (3, 2), (1, 5), (5, 1), (3, 5)]
+    for c in range(30 if quick else 180):
+        kind = xkinds[c % len(xkinds)]
+        m, T = xshapes[(c // len(xkinds)) % len(xshapes)] if c < 8 * len(xkinds) else \
+            (rng.randrange(1, 7), rng.randrange(1, 8))
+        pw = rng.choice([0, 0, 1, -3, 10, -30])
+        lo = rng.choice([0.0, -1.0, 2.0]) * 2.0 ** pw
+        d1, d2 = dyadic(nprng, (m, T), lo, pw), dyadic(nprng, (m, T), lo, pw)
+        P, M_ = float("inf"), float("-inf")
+        pick = lambda d: (rng.randrange(m), rng.randrange(T))  # noqa
+        if kind == "inf-orig":
+            d1[pick(d1)] = P
+        elif kind == "ninf-orig":
+            d1[pick(d1)] = M_
+        elif kind == "inf-surr":
+            d2[pick(d2)] = P
+        elif kind == "ninf-surr":
+            d2[pick(d2)] = M_
+        elif kind == "both-signs":
+            d1[pick(d1)] = rng.choice([P, M_])
+            d2[pick(d2)] = rng.choice([P, M_])
+            if rng.random() < 0.5 and m * T > 1:
+                d1[pick(d1)] = rng.choice([P, M_])
+        elif kind == "all-inf":
+            d1[:] = P
+            d2[:] = P if rng.random() < 0.5 else d2
+        elif kind == "all-ninf":
+            d1[:] = M_ if rng.random() < 0.5 else d1
+            d2[:] = M_
+        elif kind == "inf+nan":
+            d1[pick(d1)] = rng.choice([P, M_])
+            (d2 if rng.random() < 0.5 else d1)[pick(d1)] = np.nan
+        elif kind == "row-inf":
+            d2[rng.randrange(m), :] = rng.choice([P, M_])
+        elif kind == "const+inf":
+            d1[:] = lo
+            d2[:] = lo
+            d2[pick(d2)] = P
+        elif kind == "const+ninf":
+            d1[:] = lo
+            d2[:] = lo
+            d1[pick(d1)] = M_
+        elif kind == "nan-only":
+            d2[pick(d2)] = np.nan
+        elif kind == "const":               # range 0: ZeroDivisionError
+            d1[:] = lo
+            d2[:] = lo
+        elif kind == "opposite-arrays":     # one array entirely +inf, the other entirely -inf
+            d1[:] = P
+            d2[:] = M_
+        nb = rng.choice([1, 2, 3, 4, 32, 64]) if c % 9 else rng.choice([0, -1, 2 ** 31])
+        s2 = (m, T) if c % 11 else rng.choice([(m, T + 1), (m + 1, T), (T, m + 2)])
+        if s2 != (m, T):
+            d2 = np.resize(d2, s2)
+        cls = ("n_bins<1" if nb < 1 else "n_bins>=2^31" if nb >= 2 ** 31 else
+               "same-shape" if s2 == (m, T) else "surrogates-shape-differs") + ":ieee:" + kind
+        lean = f"call tmix {m} {T} {s2[0]} {s2[1]} {nb} {enc_xdata(d1)} {enc_xdata(d2)}"
+        lay = lambda: rng.choice([{}, {}, {"order": "F"}, {"stride2": True}])  # noqa
+        arrs = [SX(d1, fdt(), **lay()), SX(d2, fdt(), **lay())]
+        canon = (m, T, s2, nb, kind, d1.tobytes().hex(), d2.tobytes().hex())
+        sample = {"entry": "Surrogates.test_mutual_information", "shape": [m, T], "n_bins": nb,
+                  "data": "IEEE: " + kind} if c < 14 else None
+        if c % 3 == 2:
+            own = (rng.randrange(1, 5), rng.randrange(2, 7))
+            add_api("surr_obj", lean, arrs, [own[0], own[1], "tmi", nb], cls, (own,) + canon, True, sample)
+        else:
+            add_api("tmi", lean, arrs, [nb], cls, canon, True, sample)
+        if s2 == (m, T):
+            if rsrc is None:
+                rlean.append(f"range tmix {enc_xdata(d1)} {enc_xdata(d2)}")
+                rimpl.append("source-unreadable")
+                continue
+            try:
+                rmin, rmax, sc = tmi_range_eval(rsrc, d1, d2)
+            except Exception as e:  # noqa
+                rlean.append(f"range tmix {enc_xdata(d1)} {enc_xdata(d2)}")
+                rimpl.append("source-raises:" + type(e).__name__)
+                continue
+            exact = True
+            if sc is not None and np.isfinite(sc) and np.isfinite(rmax - rmin) and rmax != rmin:
+                exact = Fraction(sc) == 1 / (Fraction(rmax) - Fraction(rmin))
+            if not exact:
+                ctx.count("range-tie:skipped-inexact-reciprocal")
+                continue
+            rlean.append(f"range tmix {enc_xdata(d1)} {enc_xdata(d2)}")
+            rimpl.append(f"{enc_x(rmin)} {enc_x(rmax)} " + ("zerodiv" if sc is None else enc_x(sc)))
+            ctx.case(("range", d1.tobytes().hex(), d2.tobytes().hex()), True,
+                     {"range of": "_test_mutual_information", "data": kind, "range_min": enc_x(rmin),
+                      "range_max": enc_x(rmax), "scaling": "zerodiv" if sc is None else enc_x(sc)}
+                     if len(rlean) <= 6 else None)
+            ctx.count("range-tie:min=" + ("nan" if rmin != rmin else "-inf" if rmin == M_ else
+                                          "inf" if rmin == P else "finite") +
+                      ":scaling=" + ("zerodiv" if sc is None else "nan" if sc != sc else
+                                     "0" if sc == 0 else "finite"))
     # caller arrays whose shape DIFFERS from the object's own, on real objects: every public method
     # that forwards a caller-supplied array to a raw-pointer routine (the sizes handed to the C
     # routine must be those of the array, not of the object)
@@ -680,7 +834,10 @@ def run(ctx):
     # T5: the nine wrappers of `_line_dist` at their own boundary (exact outcome)
     lreqs5, lmodel5 = line_dist_requests(ctx, rng, nprng, quick)
 
-    allreqs = areqs + kreqs + oreqs + preqs + lreqs5
+    # T6: `_nsi_betweenness` at its own boundary, and the public method with captured arguments
+    nreqs, nmodel, nvalid, npub = nsi_requests(ctx, rng, nprng, quick)
+
+    allreqs = areqs + kreqs + oreqs + preqs + lreqs5 + nreqs + npub
     nchunk = 4
     chunks = [allreqs[i::nchunk] for i in range(nchunk)]
     kcalls = []
@@ -699,7 +856,7 @@ def run(ctx):
             cls = "-"
             if q["id"].startswith("a"):
                 cls = ameta[int(q["id"][1:])][1]
-            elif q["id"].startswith("o") or q["id"].startswith("p") or q["id"].startswith("l"):
+            elif q["id"][0] in "oplnq":
                 cls = q.get("cls", "-")
                 if q["id"].startswith("p"):
                     cls = q["key"] + ":" + cls
@@ -723,6 +880,10 @@ def run(ctx):
                    amodel, impl)
     for q, v in zip(areqs, impl):
         ctx.count(f"api-verdict:{v}")
+    ctx.correspond("range_min / range_max / scaling of _test_mutual_information: the source's own "
+                   "expressions evaluated by NumPy on IEEE data == NaN-propagating folds of the Lean "
+                   "wrapper model (generated range terms)", rlean, rimpl)
+    ctx.extra["range_ties"] = len(rlean)
     kimpl = []
     for q, valid in zip(kreqs, kvalid):
         r = ares[q["id"]]
@@ -763,6 +924,32 @@ def run(ctx):
                                           "histogram" if o.startswith("ok:") else o))
     ctx.correspond("_line_dist wrappers: IndexError / histogram == Lean subscript model (generated loop "
                    "skeleton and index functions)", lmodel5, limpl)
+
+    # T6
+    nimpl = []
+    for q, ok in zip(nreqs, nvalid):
+        r = ares[q["id"]]
+        o = r["outcome"]
+        nimpl.append(("valid|" if ok else "any|") +
+                     ("oob" if r["reports"] or o == "crash" else
+                      "raise" if o == "raise:IndexError" else o))
+        ctx.count("nsi-kernel-outcome:" + ("IndexError" if o == "raise:IndexError" else o))
+    ctx.correspond("_nsi_betweenness at its own boundary: contract (independent evaluation) and "
+                   "IndexError | returns == Lean index model of the breadth-first sweep", nmodel, nimpl)
+    cmodel, cimpl = [], []
+    for q in npub:
+        r = ares[q["id"]]
+        o = r["outcome"]
+        ctx.count("nsi-public-outcome:" + o.split(":")[0] +
+                  (":" + o.split(":")[1] if o.startswith("raise:") else ""))
+        if o.startswith("ok:") and o != "ok:-":
+            for call in o[3:].split(";"):
+                N_, k_, nbr_, wl_, sl_, t_ = call.split("|")
+                cmodel.append(f"nsiidx {N_} {k_} {nbr_} {wl_} {sl_} {t_}")
+                cimpl.append("valid|ok")
+    ctx.correspond("what Network.nsi_betweenness hands to the kernel (captured, contents included) "
+                   "satisfies the contract of nsiBetwIdx_ok, and the model runs through", cmodel, cimpl)
+    ctx.extra["nsi_kernel_calls_captured"] = len(cmodel)
 
     # kernel calls observed under the public API: do they satisfy the contracts the theorems assume?
     table = json.load(open(KTABLE)) if os.path.exists(KTABLE) else {}
@@ -847,6 +1034,121 @@ def pyx_kernel_requests(ctx, rng, quick):
 LD_WRAPPERS = ["_vertline_dist", "_diagline_dist", "_white_vertline_dist", "_vertline_dist_sequential",
                "_diagline_dist_sequential", "_vertline_dist_missingvalues", "_diagline_dist_missingvalues",
                "_vertline_dist_sequential_missingvalues", "_diagline_dist_sequential_missingvalues"]
+
+
+def nsi_csr(Aadj):
+    """(k, flat_neighbors) as `Network._nsi_betweenness` builds them: out-degrees and the column
+    indices of the non-zero entries, row by row"""
+    Aadj = np.asarray(Aadj)
+    return Aadj.sum(axis=1).astype(int).tolist(), np.nonzero(Aadj)[1].astype(int).tolist()
+
+
+def nsi_contract(N, k, nbr, wlen, slen, targets):
+    """independent evaluation of the contract of `nsiBetwIdx_ok` (Lean: `csrOK`)"""
+    if len(k) < N or wlen < N or slen < N or any(t >= N for t in targets):
+        return False
+    off = [0] * N
+    for i in range(1, N):
+        off[i] = off[i - 1] + k[i - 1]
+    if any(off[i] + k[i] > len(nbr) for i in range(N)) or any(x >= N for x in nbr):
+        return False
+    indeg = [0] * N
+    for i in range(N):
+        for t in range(k[i]):
+            indeg[nbr[off[i] + t]] += 1
+    return all(indeg[l] <= k[l] for l in range(N))
+
+
+def nsi_requests(ctx, rng, nprng, quick):
+    """T6: `_nsi_betweenness` at its own boundary — valid CSR adjacencies (connected, disconnected,
+    with self-loops, empty, complete) and corrupted ones (directed, neighbour entries >= N, degrees
+    overstating / understating a row, arrays one short, targets >= N)"""
+    reqs, model, valid = [], [], []
+    kinds = ["valid", "valid", "valid", "disconnected", "selfloops", "complete", "empty-graph",
+             "directed", "nbr-too-large", "k-overstated", "k-understated", "k-short", "nbr-short",
+             "target-too-large", "w-short", "src-short", "empty-targets", "repeated-targets", "hub"]
+    for c in range(57 if quick else 570):
+        kind = kinds[c % len(kinds)]
+        N = rng.choice([1, 2, 3, 3, 4, 4, 5, 6, 8, 9])
+        dens = rng.choice([0.2, 0.4, 0.7])
+        M = np.triu((nprng.rand(N, N) < dens).astype(int), 1)
+        M = M + M.T
+        if kind == "disconnected" and N > 1:
+            h = N // 2
+            M[:h, h:] = 0
+            M[h:, :h] = 0
+        elif kind == "selfloops":
+            M[np.diag_indices(N)] = (nprng.rand(N) < 0.5).astype(int)
+        elif kind == "complete":
+            M = 1 - np.eye(N, dtype=int)
+        elif kind == "empty-graph":
+            M[:] = 0
+        elif kind == "hub":
+            M[:] = 0
+            M[0, 1:] = 1
+            M[1:, 0] = 1
+        elif kind == "directed":
+            M = (nprng.rand(N, N) < dens).astype(int)
+            np.fill_diagonal(M, 0)
+        k, nbr = nsi_csr(M)
+        wlen = slen = N
+        targets = sorted(rng.sample(range(N), rng.randrange(1, N + 1)))
+        if kind == "nbr-too-large" and nbr:
+            nbr[rng.randrange(len(nbr))] = rng.choice([N, N + 3])
+        elif kind == "k-overstated":
+            k[rng.randrange(N)] += rng.choice([1, 2])
+        elif kind == "k-understated":
+            i = rng.randrange(N)
+            k[i] = max(0, k[i] - 1)
+        elif kind == "k-short":
+            k = k[:N - rng.choice([1, 1, 2])] if N > 1 else []
+        elif kind == "nbr-short" and nbr:
+            nbr = nbr[:-1]
+        elif kind == "target-too-large":
+            targets = targets + [rng.choice([N, N + 2])]
+        elif kind == "w-short":
+            wlen = N - 1
+        elif kind == "src-short":
+            slen = N - 1
+        elif kind == "empty-targets":
+            targets = []
+        elif kind == "repeated-targets":
+            targets = targets + targets[:1] + targets
+        ok = nsi_contract(N, k, nbr, wlen, slen, targets)
+        valid.append(ok)
+        enc = lambda l: ",".join(map(str, l)) or "-"  # noqa
+        reqs.append({"id": f"n{c}", "fn": "nsi_kernel", "args": [N], "cls": kind,
+                     "arrays": [A(np.ones(wlen), "float64"), A(np.array(k, dtype=int), "int16"),
+                                A(np.array(nbr, dtype=int), "int32"), A(np.ones(slen), "int8"),
+                                A(np.array(targets, dtype=int), "int32")]})
+        model.append(f"nsiidx {N} {enc(k)} {enc(nbr)} {wlen} {slen} {enc(targets)}")
+        ctx.case(("nsi", N, tuple(k), tuple(nbr), wlen, slen, tuple(targets)), N > 1,
+                 {"kernel": "_nsi_betweenness", "N": N, "k": k, "flat_neighbors": nbr,
+                  "targets": targets, "kind": kind} if c < 12 else None)
+        ctx.count(f"nsi-kernel:{kind}:{'contract-holds' if ok else 'outside-contract'}")
+    # the public method on real networks: what it hands to the kernel is captured and tested
+    preqs = []
+    for c in range(12 if quick else 80):
+        N = rng.choice([2, 3, 4, 5, 7, 9])
+        directed = c % 6 == 5
+        M = (nprng.rand(N, N) < rng.choice([0.3, 0.6])).astype(int)
+        if not directed:
+            M = np.triu(M, 1)
+            M = M + M.T
+        if c % 4 == 1:
+            M[np.diag_indices(N)] = (nprng.rand(N) < 0.5).astype(int)
+        arrs = [A(M, "int64")]
+        if c % 3 == 0:
+            arrs.append(A(nprng.randint(1, 5, size=N).astype(float), "float64"))
+        sub = lambda: sorted(rng.sample(range(N), rng.randrange(1, N + 1)))  # noqa
+        args = [int(directed), sub() if c % 2 else None, sub() if c % 3 == 1 else None,
+                int(c % 5 != 0), sub() if c % 4 == 2 else None]
+        preqs.append({"id": f"q{c}", "fn": "nsi_public", "args": args, "arrays": arrs,
+                      "cls": "directed" if directed else "undirected", "timeout": 60})
+        ctx.case(("nsi-public", N, M.tobytes().hex(), str(args)), True,
+                 {"entry": "Network.nsi_betweenness", "N": N, "directed": directed} if c < 4 else None)
+        ctx.count("nsi-public:" + ("directed" if directed else "undirected"))
+    return reqs, model, valid, preqs
 
 
 def line_dist_requests(ctx, rng, nprng, quick):
@@ -1052,7 +1354,15 @@ def oracle_stream(ctx, rng, nprng, quick):
         steps = [[rng.choice(["sig", "dist", "direct", "self", "twins"]),
                   rng.choice(["white", "corr", "aaft", "raaft"]), rng.choice(["pearson", "mi"]),
                   rng.choice([1, 2, 10, 100])] for _ in range(rng.randrange(2, 6))]
-        add("surr_hist", [A(x, rng.choice(["float64", "float32"]))], [], "history:surrogates",
+        hcls = "history:surrogates"
+        if rng.random() < 0.3:                            # IEEE specials in the data the object holds
+            sp = rng.choice(["inf", "-inf", "nan", "inf-row"])
+            if sp == "inf-row":
+                x[rng.randrange(N)] = np.inf
+            else:
+                x[rng.randrange(N), rng.randrange(T)] = float(sp)
+            hcls += ":held-" + sp
+        add("surr_hist", [SX(x, rng.choice(["float64", "float32"]))], [], hcls,
             steps=steps, timeout=60)
     for _ in range(6 if quick else 50):
         n = rng.randrange(1, 9)
